@@ -490,6 +490,18 @@ POSTPONED = [
 ]
 
 
+# only for the depth-limited deciders (C03): the one terminal production carries weight ZERO.  Weights steer the
+# weight-aware choosers; the depth analysis and the depth-limited deciders count such a production like any other.
+C03_EXTRA = [
+    {"id": "zeroterm", "start": "Expr", "classes": [
+        _c("Expr", "", abstract=True), _c("Lit", "Expr", [("v", I01)], weight=0),
+        _c("Neg", "Expr", [("e", E)], weight=2), _c("Plus", "Expr", [("l", E), ("r", E)], weight=1)]},
+    {"id": "zeromid", "start": "Expr", "classes": [
+        _c("Expr", "", abstract=True), _c("Lit", "Expr", [("v", I01)], weight=1),
+        _c("Mid", "Expr", [("a", ("sym", "Lit"))], weight=0), _c("Neg", "Expr", [("e", E)], weight=3)]},
+]
+
+
 def declared_from_spec(decl, spec):
     """overwrite the reflected weights / abstract flags of a projected declaration with what the spec (the text the classes
     were generated from) says: the decorators store them in the same per-class dict the library reads"""
